@@ -50,12 +50,26 @@ IsInlinedPathItemCycle(line, bad) ==
    /\ LET g == line.c.g IN
         /\ GKindAt(g, g.close.back) = "pathItem"
         /\ \E n \in g.close.back..Len(g.steps) : GKindAt(g, n) = "callback"
+(* F-C20-10: the remainder of F-C20-9 that a repair keeping document-local references cannot reach: the path item that is     *)
+(*   reached again from below itself lives in ANOTHER file (ext.json), so its reference does leave the document and is         *)
+(*   inlined -- the internalised document has no finite rendering.  Trigger: as F-C20-9, and the component that holds the      *)
+(*   closing reference's target lies in the second file.                                                                      *)
+RECURSIVE GHolder(_, _)
+GHolder(g, n) == IF n = 0 THEN 0 ELSE IF g.steps[n].mode = "ref" THEN n ELSE GHolder(g, n - 1)    \* the component that contains node n
+IsExternalPathItemCycle(line, bad) ==
+   IsInlinedPathItemCycle(line, bad) /\ line.c.g.split # 99 /\ GHolder(line.c.g, line.c.g.close.back) >= line.c.g.split
+(* F-C20-1 on a shared-target document (spec/RefShare.tla): a LINK or EXAMPLE site whose reference is a bare file name, loaded   *)
+(* through LoadFromData (no location): the reference is left without a resolved location and the name resolver panics.          *)
+IsShareWholeFileLinkOrExample(line) ==
+   /\ line.c.base.kind = "share" /\ "s" \in DOMAIN line.c /\ line.c.s.frag = "whole" /\ line.c.entry = "data"
+   /\ {line.c.s.k1, line.c.s.k2} \cap {"link", "example"} # {}
 SelfOps == {"schema_self_allof_default", "schema_self_anyof_example", "schema_self_not_default"}
 Class(line, bad) ==
    \* (one of the mutations -- thorough applies pairs -- is a self-composition operator, and the process dies validating)
    IF bad = {"returns_normally"} /\ line.c.base.comps = "full" /\ (\E i \in DOMAIN line.c.muts : line.c.muts[i].op \in SelfOps)
       /\ ("died_in" \in DOMAIN line => line.died_in \in {"load", "validate", "validate_after"})
       /\ (\E s \in DOMAIN line.obs : line.obs[s] \in {"crash", "hang"}) THEN "self_composition_value_check_overflows" ELSE   \* ("hang": the watchdog may fire before the 1 GB stack is used up)
+   IF IsExternalPathItemCycle(line, bad) THEN "internalize_inlines_external_path_item_cycle" ELSE
    IF IsInlinedPathItemCycle(line, bad) THEN "internalize_inlines_path_item_cycle" ELSE
    LET ms == (IF "applied" \in DOMAIN line THEN line.applied ELSE <<>>)  msg == IF "msg" \in DOMAIN line THEN line.msg ELSE "" IN
    IF bad # {"returns_normally"} \/ \E s \in DOMAIN line.obs : line.obs[s] \in {"hang", "crash"} THEN "none"
@@ -63,6 +77,8 @@ Class(line, bad) ==
         THEN (IF msg = NilDeref /\ Panicked(line.obs) \subseteq {"marshal_json", "marshal_yaml"}      \* on a sparse base: a null entry of an examples / links map
                  /\ \E i \in DOMAIN ms : ms[i].op = "to_null" /\ ms[i].path \in SparseNullEntries
               THEN "nil_entry_dereferenced"
+              ELSE IF msg = NoName /\ Panicked(line.obs) = {"internalize"} /\ IsShareWholeFileLinkOrExample(line)
+              THEN "internalize_panics_unresolvable_ref_name"
               ELSE IF msg = NoName /\ Panicked(line.obs) = {"internalize"} /\ \E i \in DOMAIN ms : ms[i].op \in RefOpsF   \* F-C20-1 does not depend on the base
               THEN "internalize_panics_unresolvable_ref_name" ELSE "none")
    ELSE IF msg = NoName /\ Panicked(line.obs) = {"internalize"} /\ \E i \in DOMAIN ms : ms[i].op \in RefOpsF
